@@ -2,8 +2,10 @@
 Object export / import (`to_obj()` / `from_obj()`), property C16, over plain values.
 
 `Obj` is the Python object tree produced by `to_obj` (ints, strings, bools, `None`, lists, tuples,
-dicts with insertion order).  `toObj` is the library's `to_obj`, `fromObj` accepts what the
-library's `from_obj` accepts, `jsonNorm` is `json.loads(json.dumps(o))` (tuples become lists) and
+dicts with insertion order).  `toObj` is the library's `to_obj`; `fromObj` accepts every object `toObj` (and
+its JSON image) produces plus plain numbers / hex strings for integers — a SUBSET of what the library's lenient
+`from_obj` accepts (the library also takes a bool as a union selector and integer strings such as ' 12' or '+12');
+only `fromObj ∘ toObj` and `fromObj ∘ jsonNorm ∘ toObj` are claimed (C16); `jsonNorm` is `json.loads(json.dumps(o))` (tuples become lists) and
 `toJson` is `json.dumps(o, separators=(',', ':'))`.
 
 Container fields are positional in the model; field `i` is called `"f" ++ toString i`.
